@@ -6,22 +6,14 @@ From Verif Require Import Lib.Base Mkvs.Trie.
 
 Definition entry := (bytes * bytes)%type.
 
-(* ---------- sorted key sets (treeOverlay.dirty) ---------- *)
+(* ---------- key sets (treeOverlay.dirty) ---------- *)
 Fixpoint ks_mem (k : bytes) (s : list bytes) : bool :=
   match s with
   | [] => false
   | k0 :: r => bytes_eqb k0 k || ks_mem k r
   end.
-Fixpoint ks_add (k : bytes) (s : list bytes) : list bytes :=
-  match s with
-  | [] => [k]
-  | k0 :: r =>
-      match bytes_cmp k k0 with
-      | Lt => k :: s
-      | Eq => s
-      | Gt => k0 :: ks_add k r
-      end
-  end.
+(* the set is a plain list; membership is all that matters *)
+Definition ks_add (k : bytes) (s : list bytes) : list bytes := k :: s.
 
 (* ---------- pending write log: key -> Some v (written) | None (removed) ---------- *)
 Definition plog := list (bytes * option bytes).
@@ -30,16 +22,8 @@ Fixpoint pl_get (k : bytes) (l : plog) : option (option bytes) :=
   | [] => None
   | (k0, e) :: r => if bytes_eqb k0 k then Some e else pl_get k r
   end.
-Fixpoint pl_set (k : bytes) (e : option bytes) (l : plog) : plog :=
-  match l with
-  | [] => [(k, e)]
-  | (k0, e0) :: r =>
-      match bytes_cmp k k0 with
-      | Lt => (k, e) :: l
-      | Eq => (k, e) :: r
-      | Gt => (k0, e0) :: pl_set k e r
-      end
-  end.
+(* the newest entry shadows older ones *)
+Definition pl_set (k : bytes) (e : option bytes) (l : plog) : plog := (k, e) :: l.
 
 (* ---------- the tree object ---------- *)
 Record tstate := mkT {
@@ -138,7 +122,7 @@ Definition s_remove_existing (k : bytes) (st : store) : store * option bytes :=
 
 (* overlay.go:115-138 Commit: all overlay items are inserted into the inner
    tree (in key order) and un-dirtied; the remaining dirty keys are removed
-   (Go: map order; the model: key order).  The overlay stays, emptied. *)
+   (Go: map order; the model: list order -- removals of distinct keys commute).  The overlay stays, emptied. *)
 Definition ks_remove_all (ks : list bytes) (ents : list entry) : list bytes :=
   filter (fun k => negb (match al_get k ents with Some _ => true | None => false end)) ks.
 Definition s_commit_top (st : store) : store :=
